@@ -1828,7 +1828,10 @@ class CParser:
                 # (type){...} is a compound literal, not a cast. Examples:
                 #   (int){1}      -> compound literal, handled in postfix
                 #   (int) x       -> cast, handled below
-                self._reset(mark)
+                # The type name is already parsed; hand it to the postfix
+                # level instead of resetting and parsing it a second time
+                # (re-parsing doubles the work at every nesting level).
+                return self._parse_postfix_expression(paren_type=typ)
             else:
                 expr = self._parse_cast_expression()
                 return c_ast.Cast(typ, expr, self._tok_coord(lparen_tok))
@@ -1873,7 +1876,18 @@ class CParser:
 
     # BNF: postfix_expression   : primary_expression postfix_suffix*
     #                           | '(' type_name ')' '{' initializer_list ','? '}'
-    def _parse_postfix_expression(self) -> c_ast.Node:
+    def _parse_postfix_expression(
+        self, paren_type: Optional[c_ast.Typename] = None
+    ) -> c_ast.Node:
+        # paren_type is a '(' type_name ')' already consumed by the caller,
+        # which has also seen that a '{' follows.
+        if paren_type is not None:
+            self._expect("LBRACE")
+            init = self._parse_initializer_list()
+            self._accept("COMMA")
+            self._expect("RBRACE")
+            return c_ast.CompoundLiteral(paren_type, init)
+
         result = self._try_parse_paren_type_name()
         if result is not None:
             typ, mark, _ = result
